@@ -102,6 +102,11 @@ VIEWS = [
     ('total > "x"', lambda s: False),
     ('months >= max_val(2, period("month") * 0.5)', lambda s: s['months'] >= max(2, PERIOD_MONTHS * 0.5)),
     ('total > 0 and total < 0', lambda s: False),
+    # comparison chains: every link counts, and each compares two adjacent operands
+    ('1 <= months <= 2', lambda s: 1 <= s['months'] <= 2),
+    ('40 < total <= 120', lambda s: 40 < s['total'] <= 120),
+    ('0 <= cv < 0.3', lambda s: 0 <= s['cv'] < 0.3),
+    ('glob < total < lim', lambda s: 40 < s['total'] < 900),
     ('round(total) == 15', lambda s: round(s['total']) == 15),
     ('abs(total) > 35 and total < 45', lambda s: abs(s['total']) > 35 and s['total'] < 45),
     # a view-local variable that shadows a primitive, inside this view only
